@@ -289,12 +289,9 @@ pub fn check(i: &Input) -> Option<(String, String)> {
         if *must > 0 && g == 0 {
             return Some(("errors:offender-not-named".into(), format!("offending item {:?} is not named in {:?}", n, errs.errors())));
         }
-        if g < *must {
-            return Some(("errors:offender-reported-too-few-times".into(), format!("{:?} offends {} times, reported {} times: {:?}", n, must, g, errs.errors())));
-        }
-        if g > must + may {
-            return Some(("errors:offender-reported-too-often".into(), format!("{:?} offends at most {} times, reported {} times", n, must + may, g)));
-        }
+        // how often an offender is named is not fixed by the property (naming it once names every
+        // offending occurrence of that name); `may` only matters for the innocence test below
+        let _ = may;
     }
     for n in named.keys() {
         if !exp.offending.contains_key(n) {
